@@ -42,9 +42,10 @@ namespace pika::detail {
 
         while (value_ < count)
         {
-            // return false if unblocked by timeout expiring
-            if (cond_.wait_until(l, abs_time, "counting_semaphore::wait_until") !=
-                pika::threads::detail::thread_restart_state::unknown)
+            // return false if unblocked by timeout expiring with the permits still missing
+            if (cond_.wait_until(l, abs_time, "counting_semaphore::wait_until") ==
+                    pika::threads::detail::thread_restart_state::timeout &&
+                value_ < count)
             {
                 return false;
             }
